@@ -137,7 +137,10 @@ func runCase(h *rh.Harness, c Case) Result {
 func classify(res *Result) {
 	switch {
 	case res.Out.Panic != "":
-		res.Class = "no_response:" + site(res.Out.PanicSite) + ":" + panicKind(res.Out.Panic)
+		res.Class = "no_response:" + site(res.Out.PanicHandler) + ":" + site(res.Out.PanicSite) + ":" + panicKind(res.Out.Panic)
+		if res.Out.PanicHandler == res.Out.PanicSite {
+			res.Class = "no_response:" + site(res.Out.PanicSite) + ":" + panicKind(res.Out.Panic)
+		}
 		res.What = "panic escaped the handler (net/http aborts the connection without a response): " + res.Out.Panic
 	case res.Out.Hang && res.Out.HangBusy:
 		res.Class = "unbounded:" + site(res.Out.HangSite)
